@@ -32,9 +32,10 @@ def run(tier, chk):
     # (ii) the same rules at connection level: request streams of a real server / client incl. truncated frames
     #      (observing the error code that reaches the transport), judged by RequestRecv / C03_Trace
     scns = common.gen_scenarios(chk, wd, "C03_Gen", cfg_text="SPECIFICATION Spec\nCONSTANT N = 3\nINVARIANT Emit\nCHECK_DEADLOCK FALSE\n", workers=8, label="cgen")
-    scns = [s for s in scns if {"PD", "PX", "Un", "U0", "H2"} & set(s.get("letters", []))]
+    #      and request streams split by the application inside a DATA frame (the position inside the frame must survive the split)
+    scns = [s for s in scns if {"PD", "PX", "Un", "U0", "H2"} & set(s.get("letters", [])) or s.get("split") == "mid"]
     common.run_sim(chk, wd, scns, "C03_Trace", label="csim", shards=12,
-                   sig_of=lambda s, t, w: "frames:connection-level:" + ("truncated" if {"PD", "PX"} & set(s.get("letters", [])) else "unknown-or-reserved"))
+                   sig_of=lambda s, t, w: "frames:connection-level:" + ("split-inside-frame" if s.get("split") == "mid" else "truncated" if {"PD", "PX"} & set(s.get("letters", [])) else "unknown-or-reserved"))
     total += len(scns)
     chk.exhaustive = True
     chk.distinct_nontrivial = total + nr
